@@ -657,15 +657,19 @@ func ruleC05Digit(e *Env) {
 	site := flow.FnName(fn)
 	// boundaries from the constants the function compares its first parameter with
 	bounds := map[int64]bool{0: true, 256: true}
+	digitParam := ssa.Value(fn.Params[0])
+	if perm := e.ParamPerm("uu", "parseDigit", fn); perm != nil && perm[0] < len(fn.Params) {
+		digitParam = fn.Params[perm[0]]
+	}
 	for _, b := range fn.Blocks {
 		for _, in := range b.Instrs {
 			if bo, ok := in.(*ssa.BinOp); ok {
 				switch bo.Op {
 				case token.LSS, token.LEQ, token.GTR, token.GEQ, token.EQL, token.NEQ:
-					if k, ok := flow.ConstInt(bo.Y); ok && bo.X == ssa.Value(fn.Params[0]) {
+					if k, ok := flow.ConstInt(bo.Y); ok && bo.X == digitParam {
 						bounds[k], bounds[k+1] = true, true
 					}
-					if k, ok := flow.ConstInt(bo.X); ok && bo.Y == ssa.Value(fn.Params[0]) {
+					if k, ok := flow.ConstInt(bo.X); ok && bo.Y == digitParam {
 						bounds[k], bounds[k+1] = true, true
 					}
 				}
@@ -696,7 +700,10 @@ func ruleC05Digit(e *Env) {
 			construct := fmt.Sprintf("byte %d..%d upper=%v", lo, hi, upper)
 			o := intervalOracle{sym: "digit", lo: lo, hi: hi}
 			ev := &pred.Evaluator{Prog: e.P.SSA, Oracle: o}
-			out, err := ev.Eval(fn, []pred.Val{pred.Sym{Name: "digit"}, pred.Const{V: constant.MakeBool(upper)}})
+			up := upper
+			out, err := ev.Eval(fn, e.Permuted("uu", "parseDigit", fn, func() []pred.Val {
+				return []pred.Val{pred.Sym{Name: "digit"}, pred.Const{V: constant.MakeBool(up)}}
+			})())
 			if err != nil {
 				e.S.Unk(rule, site, construct, err.Error(), e.Pos(fn))
 				continue
